@@ -905,37 +905,59 @@ def rough_bergomi_rules(ctx, run):
 
 def sobol_engine_rule(ctx, run):
     """R7: RandnSobolBoxMuller draws enough two-dimensional Sobol points, feeds the two *different* coordinates to box_muller,
-    concatenates both outputs, keeps exactly the requested number and gives them the requested shape, dtype and device"""
+    concatenates both outputs, keeps exactly the requested number and gives them the requested shape, dtype and device.  Decided on what
+    `engine(N, T, dtype=, device=)` returns, whatever helper methods the class splits the work into."""
     prog, interp = ctx.prog, ctx.interp
     EQ = "pfhedge.stochastic.engine.RandnSobolBoxMuller"
-    gen, call = prog.lookup_method(EQ, "_generate_1d"), prog.lookup_method(EQ, "__call__")
-    if gen is None or call is None:
-        raise AnalysisError("anchor vanished: RandnSobolBoxMuller._generate_1d / __call__")
-    run.functions.update({gen.qualname, call.qualname})
+    call = prog.lookup_method(EQ, "__call__")
+    if call is None:
+        raise AnalysisError("anchor vanished: RandnSobolBoxMuller.__call__")
+    run.functions.add(call.qualname)
+    gen = prog.lookup_method(EQ, "_generate_1d") or call
     o = Obj(EQ, "eng", {"scramble": Sym("scramble", ("bool",)), "seed": Sym("seed")})
-    n_ = W.integer("n")
-    res = [r for r in interp.explore(gen, [n_], dict(dtype=Sym("dtype"), device=Sym("device")), self_obj=o) if not r["raises"]]
+    N_, T_ = W.integer("N"), W.integer("T")
+    resc = [r for r in interp.explore(call, [N_, T_], dict(dtype=Sym("dtype"), device=Sym("device")), self_obj=o) if not r["raises"]]
     problems = []
-    if len(res) != 1:
-        raise AnalysisError("RandnSobolBoxMuller._generate_1d: expected one path")
-    v = res[0]["value"]
-    bm = [e for e in res[0]["events"] if e["kind"] == "call" and e["callee"].endswith("functional.box_muller")]
-    draws = [t for t in walk(v) if isinstance(t, Op) and t.op == "draw"]
-    if not (isinstance(v, Op) and v.op == "index" and v.args[1] == slice(None, n_, None) and isinstance(v.args[0], Op) and v.args[0].op == "cat" and v.args[0].kwd().get("dim", 0) == 0
-            and isinstance(v.args[0].args[0], (tuple, list)) and len(v.args[0].args[0]) == 2):
+    if len(resc) != 1:
+        raise AnalysisError("RandnSobolBoxMuller.__call__: expected one path")
+    vv = resc[0]["value"]
+    ts = ToSympy()
+    NT = ts.sym("N") * ts.sym("T")
+
+    def is_numel(t):
+        try:
+            return sp.simplify(ts.conv(t) - NT) == 0
+        except (NotImplementedError, TypeError):
+            return False
+    if not (isinstance(vv, Op) and vv.op in ("resize", "resize_", "view", "reshape") and list(vv.args[1:]) in ([N_, T_], [(N_, T_)])):
+        problems.append(f"the result is not given the requested shape ({str(vv)[:40]})")
+        v = vv
+    else:
+        v = vv.args[0]
+    ok_cat = (isinstance(v, Op) and v.op == "index" and isinstance(v.args[1], slice) and v.args[1].start is None and v.args[1].step is None and isinstance(v.args[0], Op)
+              and v.args[0].op == "cat" and v.args[0].kwd().get("dim", 0) == 0 and isinstance(v.args[0].args[0], (tuple, list)) and len(v.args[0].args[0]) == 2)
+    if not ok_cat:
         problems.append("the result is not cat((z0, z1), dim=0)[:n]")
-    if len(bm) != 1 or len(bm[0]["args"]) != 2:
+    elif not is_numel(v.args[1].stop):
+        problems.append("the number of normals kept is not the product of the requested sizes")
+    bm = [e for e in resc[0]["events"] if e["kind"] == "call" and e["callee"].endswith("functional.box_muller")]
+    bm_args = list(bm[0].get("bound", {}).values()) if len(bm) == 1 else []
+    draws = [t for t in walk(vv) if isinstance(t, Op) and t.op == "draw"]
+    if len(bm) != 1 or len(bm_args) != 2:
         problems.append("box_muller is not applied once to two inputs")
     else:
         cols = []
-        for a_ in bm[0]["args"]:
+        for a_ in bm_args:
             ok_ = isinstance(a_, Op) and a_.op == "index" and isinstance(a_.args[1], tuple) and a_.args[1][0] == slice(None, None, None) and isinstance(a_.args[1][-1], int)
+            if not ok_ and isinstance(a_, Op) and a_.op in ("getitem", "index") and isinstance(a_.args[0], Op) and a_.args[0].op == "unbind" and a_.args[0].kwd().get("dim", a_.args[0].args[1] if len(a_.args[0].args) > 1 else 0) in (1, -1) and isinstance(a_.args[1], int):
+                cols.append((a_.args[0].args[0], a_.args[1]))  # rand.unbind(dim=1)[k] is rand[:, k]
+                continue
             cols.append((a_.args[0], a_.args[1][-1]) if ok_ else None)
         if None in cols or cols[0][0] != cols[1][0] or {cols[0][1], cols[1][1]} != {0, 1}:
             problems.append("box_muller does not receive the two different coordinates of one Sobol draw")
-        elif isinstance(v, Op) and v.op == "index" and isinstance(v.args[0], Op) and v.args[0].op == "cat":
-            exit_bm = [e["value"] for e in res[0]["events"] if e["kind"] == "exit" and e["callee"].endswith("functional.box_muller")]
-            parts = list(v.args[0].args[0]) if isinstance(v.args[0].args[0], (tuple, list)) else []
+        elif ok_cat:
+            exit_bm = [e["value"] for e in resc[0]["events"] if e["kind"] == "exit" and e["callee"].endswith("functional.box_muller")]
+            parts = list(v.args[0].args[0])
             if not exit_bm or sorted(map(str, parts)) != sorted(map(str, exit_bm[0])):
                 problems.append("the two Box-Muller outputs are not both used")
     if not draws:
@@ -943,49 +965,29 @@ def sobol_engine_rule(ctx, run):
     else:
         d_ = draws[0]
         eng = d_.args[0]
-        if not (isinstance(eng, Op) and eng.op == "dist" and eng.args[0] == "SobolEngine" and eng.args[1] == 2):
+        dim_ = eng.kwd().get("dimension", eng.args[1] if isinstance(eng, Op) and len(eng.args) > 1 else None) if isinstance(eng, Op) else None
+        if not (isinstance(eng, Op) and eng.op == "dist" and eng.args[0] == "SobolEngine" and dim_ == 2):
             problems.append("the Sobol engine is not two-dimensional")
-        kk = sp.Symbol("k", integer=True, nonnegative=True)
-        ts = ToSympy()
-        try:
-            m_even = sp.simplify(ts.conv(d_.args[1]).subs(ts.sym("n"), 2 * kk).replace(sp.Function("op_floordiv"), lambda a, b: sp.floor(a / b)))
-        except (NotImplementedError, TypeError):
-            m_even = None
-        cnt = d_.args[1]
-        # m = n // 2 + c: 2m >= n for even and odd n  <=>  c >= 1 ... decide on the two parities
+        cnt = d_.kwd().get("n", d_.args[1] if len(d_.args) > 1 else None)
+        # m = n // 2 + c: 2m >= n for even and odd n  <=>  c >= 1
         okc = False
-        if isinstance(cnt, Op) and cnt.op == "add" and isinstance(cnt.args[0], Op) and cnt.args[0].op == "floordiv" and cnt.args[0].args == (n_, 2) and isinstance(cnt.args[1], int):
+        if isinstance(cnt, Op) and cnt.op == "add" and isinstance(cnt.args[0], Op) and cnt.args[0].op == "floordiv" and is_numel(cnt.args[0].args[0]) and cnt.args[0].args[1] == 2 and isinstance(cnt.args[1], int):
             okc = cnt.args[1] >= 1
-        elif isinstance(cnt, Op) and cnt.op == "floordiv" and isinstance(cnt.args[0], Op) and cnt.args[0].op == "add" and cnt.args[0].args[0] == n_ and isinstance(cnt.args[0].args[1], int) and cnt.args[1] == 2:
+        elif isinstance(cnt, Op) and cnt.op == "floordiv" and isinstance(cnt.args[0], Op) and cnt.args[0].op == "add" and is_numel(cnt.args[0].args[0]) and isinstance(cnt.args[0].args[1], int) and cnt.args[1] == 2:
             okc = cnt.args[0].args[1] >= 1  # (n + c) // 2
         if not okc:
-            problems.append(f"{cnt} Sobol points give fewer than n normals for some n")
-        cast = [t for t in walk(v) if isinstance(t, Op) and t.op == "to" and t.args and t.args[0] == d_]
+            problems.append(f"{str(cnt)[:60]} Sobol points give fewer than n normals for some n")
+        cast = [t for t in walk(vv) if isinstance(t, Op) and t.op == "to" and t.args and t.args[0] == d_]
         if not cast or not all(Sym("dtype") in list(t.args[1:]) + [t.kwd().get("dtype")] for t in cast):
             problems.append("the uniforms are not cast to the requested dtype")
-    resc = [r for r in interp.explore(call, [W.integer("N"), W.integer("T")], dict(dtype=Sym("dtype"), device=Sym("device")), self_obj=o) if not r["raises"]]
-    if len(resc) == 1:
-        gcalls = [e for e in resc[0]["events"] if e["kind"] == "call" and e["callee"] == gen.qualname]
-        nume = [e["value"] for e in resc[0]["events"] if e["kind"] == "exit" and e["callee"].endswith("_get_numel")]
-        ts2 = ToSympy()
-        try:
-            okn = bool(gcalls) and sp.simplify(ts2.conv(gcalls[0]["args"][0]) - ts2.sym("N") * ts2.sym("T")) == 0
-        except (NotImplementedError, TypeError, IndexError):
-            okn = False
-        if not okn:
-            problems.append("the number of normals generated is not the product of the requested sizes")
-        if not (gcalls and gcalls[0]["kwargs"].get("dtype") == Sym("dtype") and gcalls[0]["kwargs"].get("device") == Sym("device")):
-            problems.append("dtype / device are not forwarded")
-        vv = resc[0]["value"]
-        if not (isinstance(vv, Op) and vv.op in ("resize", "resize_", "view", "reshape") and list(vv.args[1:]) in ([W.integer("N"), W.integer("T")], [(W.integer("N"), W.integer("T"))])):
-            problems.append(f"the result is not given the requested shape ({str(vv)[:40]})")
-    else:
-        problems.append("__call__: expected one path")
+        elif not all(Sym("device") in list(t.args[1:]) + [t.kwd().get("device")] for t in cast):
+            problems.append("the requested device is not forwarded")
     # independence along the time axis: a low-discrepancy sequence is equidistributed over its DIMENSIONS, its consecutive points are not
     # independent draws.  An (N, T) request is for T independent normals per path; if the dimension of the sequence does not grow with T
     # (one coordinate pair per time step) and the stream is laid out row-major, one path consists of consecutive points of one sequence.
     if len(resc) == 1:
-        dims_ = [t.args[1] for t in walk(resc[0]["value"]) if isinstance(t, Op) and t.op == "dist" and t.args and t.args[0] == "SobolEngine" and len(t.args) > 1]
+        dims_ = [t.kwd().get("dimension", t.args[1] if len(t.args) > 1 else None) for t in walk(resc[0]["value"]) if isinstance(t, Op) and t.op == "dist" and t.args and t.args[0] == "SobolEngine"]
+        dims_ = [d0 for d0 in dims_ if d0 is not None]
         dep = bool(dims_) and all(isinstance(d0, (Op, Sym)) and any(x_ == W.integer("T") for x_ in walk(d0)) for d0 in dims_)
         run.oblige("C10.R7", "RandnSobolBoxMuller: the Sobol dimension covers the time axis (independent normals along a path)", dep, f"SobolEngine dimension {dims_}")
         if not dep:
